@@ -283,6 +283,9 @@ func (s *memoryStore) UpdateNodePeers(nodeID store.NodeID, peers []string, block
 	now := time.Now()
 	node.LastSeen = now
 	node.BlockNumber = blockNumber
+	// Save the check-in before looking up peers, so that a node listing itself
+	// is stamped with this check-in, like the persistent driver.
+	s.nodes[nodeID] = node
 
 	for _, peer := range peers {
 		// Only update peers we already know about
